@@ -448,6 +448,26 @@ MUTANTS = [
      "                new_inv_mm = jnp.concatenate([jnp.atleast_1d(tune_inv_mm_diag({k: v})) for k, v in history.items()])\n"),
     ("C12-tune-after-every-adaptation-epoch", "liesel/goose/kernel.py",
      "        is_slow = epoch.config.type == EpochType.SLOW_ADAPTATION\n", "        is_slow = epoch.config.type >= EpochType.FAST_ADAPTATION\n"),
+    # ------------------------------------------------------------------ C11
+    ("C11-eta-positive-exponent", "liesel/goose/da.py", "    eta = t ** (-kappa)\n", "    eta = 1.0 / (t ** (1 - kappa) + 1)\n"),
+    ("C11-error-sum-sign", "liesel/goose/da.py",
+     "    ks.error_sum += target_accept - acceptance_prob\n", "    ks.error_sum += acceptance_prob - target_accept\n"),
+    ("C11-rw-no-restart-at-epoch-start", "liesel/goose/rw.py",
+     "        da_init(kernel_state)\n        return kernel_state\n", "        return kernel_state\n"),
+    ("C11-rw-adapts-in-every-epoch", "liesel/goose/rw.py",
+     "        info, model_state = mh_step(subkey, self.model, proposal, model_state)\n        return TransitionOutcome(info, kernel_state, model_state)\n",
+     "        info, model_state = mh_step(subkey, self.model, proposal, model_state)\n        da_step(\n            kernel_state,\n            info.acceptance_prob,\n            epoch.time_in_epoch,\n            self.da_target_accept,\n            self.da_gamma,\n            self.da_kappa,\n            self.da_t0,\n        )\n        return TransitionOutcome(info, kernel_state, model_state)\n"),
+    ("C11-finalize-uses-mu", "liesel/goose/da.py",
+     "    kernel_state.step_size = jnp.exp(kernel_state.log_avg_step_size)\n", "    kernel_state.step_size = jnp.exp(kernel_state.mu) / 10.0\n"),
+    ("C11-time-not-shifted", "liesel/goose/da.py", "    t = time_in_epoch + 1\n", "    t = jnp.maximum(time_in_epoch, 1)\n"),
+    ("C11-nuts-uses-global-time", "liesel/goose/nuts.py",
+     "            outcome.info.acceptance_prob,\n            epoch.time_in_epoch,\n", "            outcome.info.acceptance_prob,\n            epoch.time,\n"),
+    ("C11-iwls-ignores-configured-target", "liesel/goose/iwls.py",
+     "            epoch.time_in_epoch,\n            self.da_target_accept,\n", "            epoch.time_in_epoch,\n            0.8,\n"),
+    ("C11-mh-tunes-although-switched-off", "liesel/goose/mh_kernel.py",
+     "        if self.da_tune_step_size:\n            da_step(", "        if self.da_tune_step_size or epoch.config.type == 2:\n            da_step("),
+    ("C11-hmc-finalize-only-after-adaptation", "liesel/goose/hmc.py",
+     "        da_finalize(kernel_state)\n        return kernel_state\n", "        kernel_state.step_size = jnp.exp(0.5 * (kernel_state.log_avg_step_size + jnp.log(kernel_state.step_size)))\n        return kernel_state\n"),
 ]
 
 # Semantics-preserving changes: the property still holds, so the check must NOT raise an alarm.
